@@ -443,8 +443,9 @@ MANIFEST = {
             "uses the signed or unsigned operator its meaning requires, accesses memory at the architectural width with the "
             "right extension and emits the required operation kinds; register tables are exact; widths are never "
             "definitely wrong (all 346 MIPS obligations are proved); conditional branches decide on the latched "
-            "condition with complementary successors. It does not decide value-level arithmetic (lwl/lwr merging, rotate "
-            "masks, accumulate carries) nor the latch order of link/indirect targets.",
+            "condition with complementary successors; no operand register is read after a possibly-aliasing write; "
+            "rlwinm/slwi/lis are exact bit for bit for all (mb, me); a branch whose delay slot is missing does not fall "
+            "through. It does not decide value-level arithmetic of lwl/lwr/swl/swr merging and accumulate carries.",
     "note": "Trusted: rustc nightly HIR; the reference rows in fv/props/c02.py transcribed from MIPS32 vol. II and Power "
             "ISA 2.07 book I keyed by capstone enumerators; ilshape transfer functions. Known: PPC BDNZL is lifted as a nop.",
 }
